@@ -288,11 +288,17 @@ func c19PriceCmp(w *core.World, id string) []core.Result {
 	default:
 		return []core.Result{core.Bad(id, "ORD", construct, w.InstrPos(cmp), "the final comparison is `"+cmp.Op.String()+"`, expected iPrice < jPrice (cheapest first)")}
 	}
-	for side, v := range map[string]ssa.Value{"0": x, "1": y} {
+	checkSide := func(side string, v ssa.Value) {
+		fn := fn
+		// the accumulation may have been extracted into a private helper (one per side, or one shared by both)
+		if h, rv, leave, ok := w.EnterHelper(fn, v); ok {
+			defer leave()
+			fn, v = h, rv
+		}
 		phi, ok := v.(*ssa.Phi)
 		if !ok {
 			out = append(out, core.Bad(id, "ORD", construct, w.InstrPos(cmp), "price operand "+side+" is not a loop-accumulated minimum"))
-			continue
+			return
 		}
 		of := `\^\$0\[\$` + side + `\]\.Offerings\[.*\]`
 		gs := []core.Gate{
@@ -324,7 +330,14 @@ func c19PriceCmp(w *core.World, id string) []core.Result {
 			out = append(out, core.Bad(id, "ORD", construct, w.InstrPos(phi), fmt.Sprintf("side $%s: expected MaxFloat64 start and one offering-price source, found init=%v sources=%d", side, hasInit, nsrc)))
 		}
 	}
-	if len(w.Sites(fn, regexp.MustCompile(`^store &local<\[1\]opkg/option\.Function\[scheduling\.CompatibilityOptions\]>\[0\] = scheduling\.AllowUndefinedWellKnownLabels$`), false)) != 2 {
+	checkSide("0", x)
+	checkSide("1", y)
+	nOpt, nCompat := 0, 0
+	w.WithHelpers(fn, func(f *ssa.Function, _ ssa.Instruction) {
+		nOpt += len(w.Sites(f, regexp.MustCompile(`^store &local<\[1\]opkg/option\.Function\[scheduling\.CompatibilityOptions\]>\[0\] = scheduling\.AllowUndefinedWellKnownLabels$`), false))
+		nCompat += len(w.Sites(f, regexp.MustCompile(`^call \(scheduling\.Requirements\)\.IsCompatible\(`), false))
+	})
+	if nCompat == 0 || nOpt != nCompat {
 		out = append(out, core.Bad(id, "ORD", construct+":opts", w.Pos(fn.Pos()), "offering compatibility is no longer tested with AllowUndefinedWellKnownLabels on both sides"))
 	}
 	if len(out) == 0 {
